@@ -291,7 +291,8 @@ def _kitchen_sink():
     """one tree with every directory kind holding every file group, x flags x path configs"""
     dirs = ['src', 'src/pkg', 'src/pkg/sub', 'src/pkg/__pycache__', 'src/pkg/.svn',
             'src/pkg/build', 'src/pkg/my-dir', 'src/node_modules', 'src/pkg/x.pyc',
-            'other', 'other/pkg', 'src/pkg/sub/__pycache__/deep', 'src/pkg/CVS/below']
+            'other', 'other/pkg', 'src/pkg/sub/__pycache__/deep', 'src/pkg/CVS/below',
+            'src-extra', 'src-extra/pkg', 'srcx']        # siblings whose path strings have 'src' as a proper prefix
     names = ('a.py', 'a.pyc', 'a.pyo', 'b.pyc', 'c.pyo', '.pyc', 'x.pyc.bak', 'X.PYC', 'pyc',
              'notes.txt')
     files = [d + '/' + n for d in dirs for n in names]
@@ -308,6 +309,11 @@ def _kitchen_sink():
         [['--path', 'src/pkg/my-dir']],
         [['--path', 'src'], ['--ignore_dir', 'build']],
         [['--path', 'src'], ['--ignore_dir', 'build'], ['--ignore_dir', 'sub']],
+        # search directories that are string prefixes of each other without being nested, in both orders and spellings
+        [['--path', 'src'], ['--path', 'src-extra']],
+        [['--path', 'src-extra'], ['--test-path', 'src']],
+        [['--test-path', 'src'], ['--test-path', 'srcx'], ['--path', 'src-extra/pkg']],
+        [['--path', 'src/pkg'], ['--path', 'src'], ['--path', 'src-extra']],
     )
     for ps in pathsets:
         for flags in FLAG_COMBOS:
@@ -393,7 +399,8 @@ def run(budget_s, seed, tier):
 
     sys_done = True
     n_sys = 0
-    for case in itertools.chain(_systematic(), _kitchen_sink()):
+    # the kitchen-sink tree (every directory kind x every file group x the path sets) is small: first; then the systematic part
+    for case in itertools.chain(_kitchen_sink(), _systematic()):
         if time.time() > deadline:
             sys_done = False
             break
@@ -421,7 +428,7 @@ def run(budget_s, seed, tier):
         "bound": "systematic part %s (%d cases): %d directory contexts (search root, nested, "
                  "__pycache__, default-ignored, --ignore_dir, non-identifier, node_modules, "
                  "outside the search path) x all %d subsets of %s x {no flag, -k, --usecompiled, "
-                 "both} x --path/--test-path, plus a kitchen-sink tree x 12 path sets "
+                 "both} x --path/--test-path, plus a kitchen-sink tree x 16 path sets (incl. sibling directories whose names are string prefixes of each other) "
                  "(duplicated/nested/overlapping) x 4 flag combos; then %d random trees "
                  "(<=8 dirs, depth<=4, <=6 files per dir)"
                  % ("complete" if sys_done else "INCOMPLETE (budget)", n_sys, len(CONTEXTS),
